@@ -165,23 +165,35 @@ impl Crypto {
         Ed25519KeyPair::from_seed_unchecked(&key).unwrap()
     }
 
+    /// Decodes a key from its text form. Keys are printed as base62 numbers, which drops leading zero bytes, so
+    /// shorter results are left-padded to the key length again.
+    fn parse_key_bytes(text: &str) -> Result<Vec<u8>, char> {
+        let mut bytes = from_base62(text)?;
+        if bytes.len() < ED25519_PUBLIC_KEY_LEN {
+            let mut padded = vec![0; ED25519_PUBLIC_KEY_LEN - bytes.len()];
+            padded.append(&mut bytes);
+            bytes = padded;
+        }
+        Ok(bytes)
+    }
+
     fn parse_keypair(privkey: &str, pubkey: &str) -> Result<Ed25519KeyPair, Error> {
-        let privkey = from_base62(privkey).map_err(|_| Error::InvalidConfig("Failed to parse private key"))?;
-        let pubkey = from_base62(pubkey).map_err(|_| Error::InvalidConfig("Failed to parse public key"))?;
+        let privkey = Self::parse_key_bytes(privkey).map_err(|_| Error::InvalidConfig("Failed to parse private key"))?;
+        let pubkey = Self::parse_key_bytes(pubkey).map_err(|_| Error::InvalidConfig("Failed to parse public key"))?;
         let keypair = Ed25519KeyPair::from_seed_and_public_key(&privkey, &pubkey)
             .map_err(|_| Error::InvalidConfig("Keys rejected by crypto library"))?;
         Ok(keypair)
     }
 
     fn parse_private_key(privkey: &str) -> Result<Ed25519KeyPair, Error> {
-        let privkey = from_base62(privkey).map_err(|_| Error::InvalidConfig("Failed to parse private key"))?;
+        let privkey = Self::parse_key_bytes(privkey).map_err(|_| Error::InvalidConfig("Failed to parse private key"))?;
         let keypair = Ed25519KeyPair::from_seed_unchecked(&privkey)
             .map_err(|_| Error::InvalidConfig("Key rejected by crypto library"))?;
         Ok(keypair)
     }
 
     fn parse_public_key(pubkey: &str) -> Result<Ed25519PublicKey, Error> {
-        let pubkey = from_base62(pubkey).map_err(|_| Error::InvalidConfig("Failed to parse public key"))?;
+        let pubkey = Self::parse_key_bytes(pubkey).map_err(|_| Error::InvalidConfig("Failed to parse public key"))?;
         if pubkey.len() != ED25519_PUBLIC_KEY_LEN {
             return Err(Error::InvalidConfig("Failed to parse public key"));
         }
